@@ -31,6 +31,7 @@ struct VMsg : Message
 {
   VMsg(const F8MetaCntx& c);                           // never called; anchors the vtable
   bool is_admin() const override { return vf_msg_is_admin(this); }
+  f8String _vtype;                                     // MessageBase::_msgType is a reference: the referent lives here
 };
 VMsg::VMsg(const F8MetaCntx& c) : Message(c, "0", static_cast<const FieldTrait *>(nullptr), 0, nullptr) {}
 
@@ -52,6 +53,7 @@ struct VConn : Connection { VConn(Session& s); };      // never called; anchors 
 static Poco::Net::SocketAddress *vf_noaddr;
 VConn::VConn(Session& s) : Connection(nullptr, *vf_noaddr, s, Connection::cn_initiator, pm_thread, 10, false) {}
 
+static const FieldTrait *no_traits() { static char raw[sizeof(FieldTrait)]; return reinterpret_cast<const FieldTrait *>(raw); }   // empty table, non-null
 extern "C" {
 // ---- world construction (typed static storage declared by the harness) ----
 void vf_sb_globals()
@@ -74,11 +76,12 @@ void vf_sb_init(VSessB *s, VPers *p)
   // remaining members: setters of shims/sess_common.cpp (vf_sess_set_ptrs / _set_sid / _set_seq / _set_flags / _set_state)
 }
 unsigned vf_sb_batchbuf_len(VSessB *s) { return unsigned(s->_batchmsgs_buffer.size()); }
-void vf_sb_msg_init(VMsg *m, MessageBase *hdr, const char *msgtype)
+void vf_sb_msg_init(VMsg *m, MessageBase *hdr, const char *msgtype, const F8MetaCntx *ctx)
 {
+  new (&m->_vtype) f8String(msgtype);
+  new (static_cast<MessageBase *>(m)) MessageBase(*ctx, m->_vtype, no_traits(), 0, nullptr);   // real ctor, empty trait table
   *reinterpret_cast<void ***>(m) = &_ZTV4VMsg[2];
   m->_header = hdr; m->_trailer = nullptr; m->_custom_seqnum = 0; m->_no_increment = false; m->_end_of_batch = true;
-  new (const_cast<f8String*>(&m->_msgType)) f8String(msgtype);
 }
 unsigned vf_sb_msg_custom(const Message *m) { return m->get_custom_seqnum(); }
 bool vf_sb_msg_noinc(const Message *m) { return m->get_no_increment(); }
@@ -96,6 +99,7 @@ bool vf_sb_send_r(VSessB *s, Message *m, unsigned custom, bool noinc) { return s
 unsigned vf_sb_send_batch(VSessB *s, Message *m0, Message *m1, Message *m2, unsigned j, bool destroy)
 {
   std::vector<Message *> v;
+  v.reserve(3);            // no reallocation afterwards: elements are stored by typed pointer stores, never byte-copied
   if (j > 0) v.push_back(m0);
   if (j > 1) v.push_back(m1);
   if (j > 2) v.push_back(m2);
